@@ -7,7 +7,7 @@
 (*   occurs or maps to a key illegal in the context; identity gives an     *)
 (*   equal object; translation composes; iterators visit KeysPre(ast).     *)
 (***************************************************************************)
-EXTENDS Validation, Json, IOUtils
+EXTENDS Validation, Json, IOUtils, Bags
 
 ASSUME TLCSet(1, ndJsonDeserialize(IOEnv.TRACE))
 Rec == TLCGet(1)
@@ -18,6 +18,7 @@ Init == b = 0 /\ i = 0
 Next == \/ b = 0 /\ b' \in 1..NB /\ i' = 0
         \/ b > 0 /\ i = 0 /\ b' = b /\ i' \in {j \in 1..Len(Rec) : j % NB = b - 1}
 
+SeqBag(sq) == LET RECURSIVE F(_) F(q) == IF q > Len(sq) THEN EmptyBag ELSE SetToBag({sq[q]}) (+) F(q + 1) IN F(1)
 Report(prop, clause, ev, detail) == PrintT("VERDICT " \o ToJson(<<prop, clause, ev.id, 0, detail>>))
 
 \* map is a 0-indexed JSON array over key ids 0..4 -> 1-indexed sequence here
@@ -67,12 +68,13 @@ JudgeEvent(ev) ==
       LET d == ev.desc
           ik == IF d.wrap = "tr" THEN <<20>> ELSE <<>>
       IN
-      /\ (d.for_each = ik \o ks \/ Report("C20", "descriptor_for_each_key_differs", ev, <<d.for_each, ik \o ks>>))
-      /\ (d.iter_pk = ik \o ks \/ Report("C20", "descriptor_iter_pk_differs", ev, <<d.iter_pk, ik \o ks>>))
+      \* descriptors: exactly the MULTISET of keys of the string form (C20 does not fix an order)
+      /\ (SeqBag(d.for_each) = SeqBag(ik \o ks) \/ Report("C20", "descriptor_for_each_key_differs", ev, <<d.for_each, ik \o ks>>))
+      /\ (SeqBag(d.iter_pk) = SeqBag(ik \o ks) \/ Report("C20", "descriptor_iter_pk_differs", ev, <<d.iter_pk, ik \o ks>>))
       /\ (d.identity_eq \/ Report("C20", "descriptor_identity_translation_not_equal", ev, ""))
       /\ (d.rename_st = "ok" \/ Report("C20", "descriptor_translation_fails", ev, d.wrap))
       /\ (d.rename_st # "ok" \/
-          /\ (d.rename_keys = [q \in 1..Len(ik \o ks) |-> MapKey(ev.maps[2].map, (ik \o ks)[q])]
+          /\ (SeqBag(d.rename_keys) = SeqBag([q \in 1..Len(ik \o ks) |-> MapKey(ev.maps[2].map, (ik \o ks)[q])])
               \/ Report("C20", "descriptor_translated_keys_differ", ev, d.rename_keys))
           /\ (d.rename_script = SubstScript(ev.script, ev.maps[2].map)
               \/ Report("C20", "descriptor_translated_script_is_not_substitution", ev, d.wrap))))
